@@ -67,6 +67,10 @@ deriving DecidableEq, Repr, Inhabited
 
 inductive Fill where
   | none | null | previous | number (k : Int)
+  /-- fill(linear): parsed, not given a semantics here (every bucket is returned, nothing is
+  interpolated); the driver answers such statements with a fixed marker - the executor's answer
+  depends on the chunk size (finding fill-linear). -/
+  | linear
 deriving DecidableEq, Repr, Inhabited
 
 inductive Cmp where
@@ -263,6 +267,7 @@ def Query.fillRow (q : Query) (prev : List Val) (vals : List Val) : List Val :=
   | .null => (vals.zip q.calls).map (fun (v, (f, _)) => if v == .null && f == .count then .int 0 else v)
   | .previous => (vals.zip prev).map (fun (v, p) => if v == .null then p else v)
   | .number k => (vals.zip q.calls).map (fun (v, (f, c)) => if v == .null then fillNumber f c k else v)
+  | .linear => vals
 
 /-- the bucket starts of a statement in output order. -/
 def bucketStarts (w : Nat) (lo hi : Int) (asc : Bool) : List Int :=
